@@ -48,7 +48,7 @@ PROPS = {
         },
         "partial": ["proved for all shapes: every struct/enum name is defined once (D15 repair) and every referenced type name is defined in the module (refs_defined); proved for all shapes outside the recorded class D17: every field name is a legal, distinct identifier (fields_legal). Not theorems: legality of field names inside D17 (false of the code) and everything else rustc checks (variant-name clashes D16, tuple arity D19, derive bounds); decided on every generated file by the independent item parser and name-resolution check, and on batches by rustc",
                     "known findings: member names whose snake form is not a legal or distinct field name (D17), tuples of more than 12 elements (D19)"],
-        "rule": "gen on shapes inferred from random histories (`gen`, property domain) and on arbitrary shapes (`genx`, model/code comparison only), compile on source sets: the returned text is parsed by an independent parser of codegen's item syntax, names are resolved (each referenced type defined exactly once or standard, legal distinct field/variant/type names, tuple arity), and the first 60 (thorough: 600) modules that pass are included in a module as documented and compiled by rustc against serde. Non-trivial = a module with at least one struct or enum. Third session: source sets with member names of every awkward category (non-ASCII letters, keywords, leading digits, underscores, case/separator collisions, 300 characters, names of types the code mentions), 40-member objects, 40 levels, 24 distinct sub-structs, 130-260 repeats of one sub-struct then a new one, tuples of 11-25 slots, numbers of every lexical kind, every pair/triple of nine small objects; the FILE written is checked to be the returned items behind a header legal inside a module; macrocheck includes a non-ASCII collection through the real macro.",
+        "rule": "gen on shapes inferred from random histories (`gen`, property domain) and on arbitrary shapes (`genx`, model/code comparison only), compile on source sets: the returned text is parsed by an independent parser of codegen's item syntax, names are resolved (each referenced type defined exactly once or standard, legal distinct field/variant/type names, tuple arity), and the first 60 (thorough: 600) modules that pass are included in a module as documented and compiled by rustc against serde. Non-trivial = a module with at least one struct or enum. Third session: source sets with member names of every awkward category (non-ASCII letters, keywords, leading digits, underscores, case/separator collisions, 300 characters, names of types the code mentions), 40-member objects, 40 levels, 24 distinct sub-structs, 130-260 repeats of one sub-struct then a new one, tuples of 11-25 slots, numbers of every lexical kind, every pair/triple of nine small objects; the FILE written is checked to be the returned items behind a header legal inside a module; macrocheck includes a non-ASCII collection through the real macro. Also: sibling values that differ only in an inner optional position, tuples that only regroup the same leaves as variants of one OneOf, dictionary words as member names and collection names. Every run also uses the source dictionary (string and integer literals of the library's non-test source as member names / values / texts / collection names and as sizes n-1, n, n+1) and repeats the whole operation list in reverse order in fresh processes, with env-var-like literals set, reporting answers that differ (hidden state).",
         "assumptions": ["rustc and serde_derive as installed decide 'compiles' for the batches; the item parser + resolution check decides it on every case"],
         "level_text": "The generator (first_pass, create_subtype, shape_name with CRC-32 and convert_case, shape_representation, codegen's rendering) is modelled in Lean and compared with the real generator on every case of the run. Theorems over all shapes: no struct/enum name is emitted twice (defined_once) and every type name the module refers to is defined in it (refs_defined). Field-name legality is false of the code (known finding D17); it and the rest of 'compiles' are decided per generated file by an independent parser + resolution check and by rustc on batches.",
         "level_note": "Trusted: Lean kernel; Lean model of json_shape_build (differential, byte-exact); lib/rustitems.py as the Rust-item parser; rustc for batches.",
@@ -64,7 +64,7 @@ PROPS = {
         },
         "partial": ["generated_types_mirror: for every shape whose type names do not clash (NoClash, the complement of known finding D16) the root type expression reads back as the shape and every struct/enum of the module mirrors its sub-shape (one field per member in order, field name = snake form of the member name, field type reading back as the member's shape; one variant per variant shape) with respect to one resolver read off the shape. The root item of an optional Object/OneOf is the bare struct (known finding D22); the rendering of items to text is compared, not proved",
                     "known findings: name clashes (D16) make a reference resolve to another shape's struct; a root optional Object/OneOf is emitted without Option (D22)"],
-        "rule": "every generated file (gen on inferred shapes, compile on source sets) with identifier-like member names is parsed and decoded back into a shape, following type references from the root item, and compared with the inferred shape: kinds, optional flags, element order, variants as sets, members by position (and by name when names are already snake_case). Non-trivial = a shape with a container. Third session: same added source sets as C13, incl. the sequences that reach an optional OneOf variant of every kind and tuples of 13-25 slots.",
+        "rule": "every generated file (gen on inferred shapes, compile on source sets) with identifier-like member names is parsed and decoded back into a shape, following type references from the root item, and compared with the inferred shape: kinds, optional flags, element order, variants as sets, members by position (and by name when names are already snake_case). Non-trivial = a shape with a container. Third session: same added source sets as C13, incl. the sequences that reach an optional OneOf variant of every kind and tuples of 13-25 slots. Also: as C13. Every run also uses the source dictionary (string and integer literals of the library's non-test source as member names / values / texts / collection names and as sizes n-1, n, n+1) and repeats the whole operation list in reverse order in fresh processes, with env-var-like literals set, reporting answers that differ (hidden state).",
         "assumptions": [],
         "level_text": "generated_types_mirror is a Lean theorem over all shapes without type-name clashes: the type written for a shape reads back as exactly that shape (f64/String/bool/(), Option, Vec, tuples in order, named types) and every generated struct/enum definition mirrors its Object/OneOf sub-shape member by member / variant by variant. The generator model is compared with the real generator each run, and the read-back is recomputed on the real output by an independent decoder.",
         "level_note": "Trusted: Lean kernel; Lean model of json_shape_build (differential, byte-exact); lib/rustitems.py decoder.",
@@ -88,7 +88,7 @@ PROPS = {
         "partial": ["deserialisation clause proved in the model for OneOf-free shapes without Null-typed members and legal field names; with C01 (sources admitted by the inferred shape) it gives: every source deserialises. The serialise-back clause is a theorem in the same fragment (admits_roundtrips) about serdeBack, the model of to_value ∘ from_str, whose verdict is compared with the generated program's on every accepted (shape, source)",
                     "serde's derive is a model (serdeAccepts), validated against the real serde on every compiled case",
                     "known findings: D18 (OneOf → externally tagged enum), D17 (renamed fields without serde(rename)), D19 (empty object → unit struct), D22 (root optional), D23 (Null member absent), D16 (name clash), D3 (unsound inference on conflicting arrays of objects)"],
-        "rule": "source sets (half from a generator of clean histories: non-empty snake_case objects, homogeneous arrays, tuples, dropped/null members; half arbitrary histories) are compiled by compile_json; modules that pass C13's resolution check are compiled by rustc in a batch (quick: 60 sets, thorough: 600) and every source is deserialised into the root type, serialised back and compared up to number formatting and explicit nulls. The real verdict is compared with serdeAccepts on the same (shape, document). Non-trivial = document accepted into a type with a struct. Third session: same added source sets as C13; the resolver knows Rust's primitive types, so a field typed e.g. u64 reaches the rustc/serde batch instead of being dropped.",
+        "rule": "source sets (half from a generator of clean histories: non-empty snake_case objects, homogeneous arrays, tuples, dropped/null members; half arbitrary histories) are compiled by compile_json; modules that pass C13's resolution check are compiled by rustc in a batch (quick: 60 sets, thorough: 600) and every source is deserialised into the root type, serialised back and compared up to number formatting and explicit nulls. The real verdict is compared with serdeAccepts on the same (shape, document). Non-trivial = document accepted into a type with a struct. Third session: same added source sets as C13; the resolver knows Rust's primitive types, so a field typed e.g. u64 reaches the rustc/serde batch instead of being dropped. Also: as C13. Every run also uses the source dictionary (string and integer literals of the library's non-test source as member names / values / texts / collection names and as sizes n-1, n, n+1) and repeats the whole operation list in reverse order in fresh processes, with env-var-like literals set, reporting answers that differ (hidden state).",
         "assumptions": ["rustc, serde_derive, serde_json as installed"],
         "level_text": "admits_deserializes (every admitted document is read) and admits_roundtrips (and written back equal to the source up to number formatting and explicit nulls) are Lean theorems over all shapes in the stated fragment and all documents; the excluded classes are exactly the recorded known findings, each with a proved witness. The derive model is compared with the real serde on every (shape, source) of the compiled batches, and the generator model byte for byte with the real generator.",
         "level_note": "Trusted: Lean kernel; serdeAccepts as model of serde's derive (differential against real serde); generator model (differential); reference semantics admits.",
@@ -115,7 +115,7 @@ PROPS = {
         },
         "partial": ["'different sub-shapes receive different names' is false of the code (D16, pinned by the build tests' expected names) and is a recorded known finding; proved instead: names separate shapes of different kind/arity/optional flag (name_prefix_separates)",
                     "the file system is an abstract map path → content (Model/Build.lean): std::fs::{read_to_string, write}, PathBuf::join, env::var_os are assumed to behave as that map; the real compile_json is run on the same request histories and its directory compared with the model's after every request"],
-        "rule": "p_c16 on source sets x 5 collection names (with dots and dashes) in fresh OUT_DIRs: exactly one file `<name>.gen.shape.rs`, content = header + returned text, second run byte-identical, returned text = generator's text for the shape the library infers, build crate's inference = library's inference; invalid/empty source lists: Err and empty OUT_DIR. p_c16h: histories of 2-5 requests into ONE directory (all ordered pairs of 10 source lists incl. invalid, unreadable, empty and mixed lists under one name; random histories over 4 names incl. dotted ones), sources written before the first request or just before each: after every request the directory must be exactly {name ↦ header + last returned text}; the results and the final directory are compared with the model's runBuild. Names: across all generated files of the run the maps sub-shape → type name and type name → sub-shape must both be functions. Non-trivial = successful compilation. Third session: same added source sets as C13; OUT_DIR variants (trailing slash, unusual directory name, relative, unset), source file names sorting in reverse of the list order.",
+        "rule": "p_c16 on source sets x 5 collection names (with dots and dashes) in fresh OUT_DIRs: exactly one file `<name>.gen.shape.rs`, content = header + returned text, second run byte-identical, returned text = generator's text for the shape the library infers, build crate's inference = library's inference; invalid/empty source lists: Err and empty OUT_DIR. p_c16h: histories of 2-5 requests into ONE directory (all ordered pairs of 10 source lists incl. invalid, unreadable, empty and mixed lists under one name; random histories over 4 names incl. dotted ones), sources written before the first request or just before each: after every request the directory must be exactly {name ↦ header + last returned text}; the results and the final directory are compared with the model's runBuild. Names: across all generated files of the run the maps sub-shape → type name and type name → sub-shape must both be functions. Non-trivial = successful compilation. Third session: same added source sets as C13; OUT_DIR variants (trailing slash, unusual directory name, relative, unset), source file names sorting in reverse of the list order. Also: as C13; a non-UTF-8 OUT_DIR among the request histories. Every run also uses the source dictionary (string and integer literals of the library's non-test source as member names / values / texts / collection names and as sizes n-1, n, n+1) and repeats the whole operation list in reverse order in fresh processes, with env-var-like literals set, reporting answers that differ (hidden state).",
         "assumptions": ["std::fs and PathBuf behave as the abstract map of Model/Build.lean (exercised by p_c16 / p_c16h on a real temporary directory)"],
         "level_text": "compile_json is modelled as a step of a state machine over an abstract file system; for every prior state and every history of requests Lean proves: a failing request changes nothing, a successful one leaves header + returned text at the path the macro reads and touches no other file, requests succeed exactly on readable non-empty lists of accepted texts, recompiling is idempotent, and after any history each collection's file is the last returned text. Path agreement and name congruence are theorems; name injectivity is false (D16, known finding with proved witness). The model's generated text is compared byte for byte with the real generator, and the real compile_json is run on the same request histories (fresh and reused OUT_DIRs) with its directory compared with the model's.",
         "level_note": "Trusted: Lean kernel; Lean model of json_shape_build incl. the abstract file system (differential: byte-exact text, directory contents per request history); std::fs and PathBuf::join assumed to behave as the abstract map.",
@@ -132,7 +132,7 @@ PROPS = {
             "absorbed_upper": "a.wf → b.wf → isSubset b a → admits (merger a b) x → admits a x",
         },
         "partial": ["the property's last clause (size bounded by the structural variety of the sources) is proved in the form it is quantified: the shape, hence its size, does not depend on the number of repetitions (size_independent_of_repetitions); no closed-form bound in terms of variety is claimed"],
-        "rule": "p_c09: for every history (all sequences of length <= 2 over 19 fixed documents + random histories of 1-5 documents) and every document d of it, d is re-fed k=4 (thorough: 16) times; the shape must be identical from the first repetition on, and the printed shapes are compared with the base shape by witnesses of the reference semantics in both directions; plus subset/merger/p_keeps on reachable (sample, accumulator, sample) triples. p_cycle: groups of 2-3 documents (all ordered pairs of 25 fixed documents, at top level, below a member and inside a tuple; random groups) are fed 2, 4, 8 and 16 times in turn, and the printed size of the resulting shape must not keep growing (size(4) < size(8) < size(16) is a failure). Non-trivial = history with a container. Third session: plus n equal sources and one differing (n = 8..33).",
+        "rule": "p_c09: for every history (all sequences of length <= 2 over 19 fixed documents + random histories of 1-5 documents) and every document d of it, d is re-fed k=4 (thorough: 16) times; the shape must be identical from the first repetition on, and the printed shapes are compared with the base shape by witnesses of the reference semantics in both directions; plus subset/merger/p_keeps on reachable (sample, accumulator, sample) triples. p_cycle: groups of 2-3 documents (all ordered pairs of 25 fixed documents, at top level, below a member and inside a tuple; random groups) are fed 2, 4, 8 and 16 times in turn, and the printed size of the resulting shape must not keep growing (size(4) < size(8) < size(16) is a failure). Non-trivial = history with a container. Third session: plus n equal sources and one differing (n = 8..33). Also: position histories with every document re-fed (p_c09, p_cycle), long histories with two different records and one background record re-added k times (p_readd). Every run also uses the source dictionary (string and integer literals of the library's non-test source as member names / values / texts / collection names and as sizes n-1, n, n+1) and repeats the whole operation list in reverse order in fresh processes, with env-var-like literals set, reporting answers that differ (hidden state).",
         "assumptions": [],
         "level_text": "converge is a Lean theorem over all histories and all k: re-adding a source keeps the meaning (meaningEq) and the shape is literally stable from the first repetition. It composes samples_accepted (C03) with absorb_stable and absorbed_upper, both proved for all well-formed shapes by induction over merger's arms. Only closes on the code after the D6/D7 repairs. merger, is_subset, from_sources are compared with the real code on the reachable domain each run, and stability/meaning are re-evaluated on the real from_sources.",
         "level_note": "Trusted: Lean kernel; models of merger.rs, subset.rs, shape/mod.rs (differential testing); reference semantics for the meaning comparison (witness search is testing).",
@@ -145,7 +145,7 @@ PROPS = {
             "serde_roundtrip": "s.wf → deserialize (serJ s) = some s   (tree level: externally tagged enum, maps as objects, sets as sequences re-inserted on read)",
             "display_inj": "identKeys a → identKeys b → display a = display b → a = b   (character level; Display texts form a prefix code)",
         },
-        "rule": "every shape of the small-scope and depth-2 universes + random shapes to depth 4 (+ objects whose keys need JSON escaping): Display text, serde_json::to_string text (compared byte for byte with the model's rendering), round trip through text and through serde_json::Value, determinism (serialised twice, via Value, Display twice); among shapes with identifier-like keys no two print the same text. Non-trivial = container shape. Third session: every shape also sits beside its optional twin inside a OneOf; every cmp carries the oracle 'Equal exactly for equal shapes'.",
+        "rule": "every shape of the small-scope and depth-2 universes + random shapes to depth 4 (+ objects whose keys need JSON escaping): Display text, serde_json::to_string text (compared byte for byte with the model's rendering), round trip through text and through serde_json::Value, determinism (serialised twice, via Value, Display twice); among shapes with identifier-like keys no two print the same text. Non-trivial = container shape. Third session: every shape also sits beside its optional twin inside a OneOf; every cmp carries the oracle 'Equal exactly for equal shapes'. Every run also uses the source dictionary (string and integer literals of the library's non-test source as member names / values / texts / collection names and as sizes n-1, n, n+1) and repeats the whole operation list in reverse order in fresh processes, with env-var-like literals set, reporting answers that differ (hidden state).",
         "assumptions": ["serde_json's text layer (escaping, parsing) and serde's derive representation are trusted; the model's rendering is compared with the real output byte for byte",
                         "Display of non-ASCII member names consults Unicode tables (char::is_alphanumeric): outside the modelled fragment, skipped in the comparison; injectivity is claimed for [A-Za-z0-9_-]+ keys as the property states"],
         "level_text": "serde_roundtrip (for every well-formed shape, reading back the serialised tree yields the shape) and display_inj (for identifier-like member names the Display text determines the shape; proved at character level by showing Display texts form a prefix code) are Lean theorems over all shapes. The model's Display and JSON text are compared with the real output on every run; round trip, determinism and injectivity are re-checked on the real code.",
@@ -161,7 +161,7 @@ PROPS = {
             "null_subset_optional": "∀ s, s.isOptional → isSubset null s = true",
             "similar_spec": "similar a b = some c → c≈a ∧ c≈b up to the flag ∧ c.isOptional = (a.isOptional || b.isOptional) ∧ similar b a = some c ∧ a ⊑ c ∧ b ⊑ c",
         },
-        "rule": "ops = subset/similar/as_optional/is_optional/keys on every shape of the small-scope universe (scalars, all containers of width<=2 over a 4-shape base, both flags), a depth-2 universe and seeded random shapes up to depth 4; all ordered pairs of the small universe plus random related pairs. Non-trivial = container shape involved or answer true. Third session: plus the depth-2 universe as ordered pairs, wide shapes (5-65 entries) with twins, chains of every container kind to depth 300, and the eight is_* predicates.",
+        "rule": "ops = subset/similar/as_optional/is_optional/keys on every shape of the small-scope universe (scalars, all containers of width<=2 over a 4-shape base, both flags), a depth-2 universe and seeded random shapes up to depth 4; all ordered pairs of the small universe plus random related pairs. Non-trivial = container shape involved or answer true. Third session: plus the depth-2 universe as ordered pairs, wide shapes (5-65 entries) with twins, chains of every container kind to depth 300, and the eight is_* predicates. Every run also uses the source dictionary (string and integer literals of the library's non-test source as member names / values / texts / collection names and as sizes n-1, n, n+1) and repeats the whole operation list in reverse order in fresh processes, with env-var-like literals set, reporting answers that differ (hidden state).",
         "assumptions": ["shapes reaching the library are well-formed (BTreeMap/BTreeSet invariants), which the harness cannot violate"],
         "level_text": "All four clauses are Lean theorems over every shape (structural induction, no bound): subset_refl, subset_as_optional, null_subset_optional, similar_spec. The model's isSubset/similar/as_optional are compared with the real functions on every run (all pairs of a small-scope universe + random deep shapes), and the property is also evaluated directly on the real code for each generated case.",
         "level_note": "Trusted: Lean kernel; the hand-written model of value.rs/subset.rs/subtypes.rs (tied by differential testing only); BTreeMap/BTreeSet as sorted lists. Well-formedness (sorted, duplicate-free maps/sets) is a hypothesis every Rust value satisfies by construction.",
@@ -180,7 +180,7 @@ PROPS = {
         },
         "partial": ["sources_sound carries the hypothesis conflictFree (the exact complement of known finding D3); the full statement is refuted by d3_counterexample",
                     "text level: sources_sound_text states the same about the strings given to from_sources, through accept_iff (C04): every accepted source text has a reading (a cut into RFC lexemes and the document they derive) that the shape admits"],
-        "rule": "histories of 1-5 type-directed random documents (nesting <= 4, empty containers, arrays of objects with missing keys, tuples, repeated/re-rendered/tweaked documents), every prefix of each history, plus merger on all ordered pairs of the small-scope shape universe and single-document inference on random documents. Oracle: admits(from_sources(h), d) for every d in h and witness monotonicity between consecutive prefixes. Non-trivial = container shape involved. Third session: plus the depth-2 shape universe as ordered pairs for merger (half in quick, all in thorough), every array of 1-3 elements over twelve base documents / every object over them / arrays of 2-3 small objects / arrays of two 2-arrays (exhaustive), arrays of objects whose elements disagree about a key (every ordered pair/triple of ten value kinds), elements equal up to one nested flag, WIDTH families (arrays of n equal elements with one differing last/middle element, wide objects, n = 7..300; n equal sources and one differing, n = 8..300) — all fed as sources too.",
+        "rule": "histories of 1-5 type-directed random documents (nesting <= 4, empty containers, arrays of objects with missing keys, tuples, repeated/re-rendered/tweaked documents), every prefix of each history, plus merger on all ordered pairs of the small-scope shape universe and single-document inference on random documents. Oracle: admits(from_sources(h), d) for every d in h and witness monotonicity between consecutive prefixes. Non-trivial = container shape involved. Third session: plus the depth-2 shape universe as ordered pairs for merger (half in quick, all in thorough), every array of 1-3 elements over twelve base documents / every object over them / arrays of 2-3 small objects / arrays of two 2-arrays (exhaustive), arrays of objects whose elements disagree about a key (every ordered pair/triple of ten value kinds), elements equal up to one nested flag, WIDTH families (arrays of n equal elements with one differing last/middle element, wide objects, n = 7..300; n equal sources and one differing, n = 8..300) — all fed as sources too. Also: position histories (every ordered pair / triple of twenty small documents in six contexts), long histories with two different records among n equal ones, space twins, one name spelled differently in sibling elements. Every run also uses the source dictionary (string and integer literals of the library's non-test source as member names / values / texts / collection names and as sizes n-1, n, n+1) and repeats the whole operation list in reverse order in fresh processes, with env-var-like literals set, reporting answers that differ (hidden state).",
         "assumptions": ["documents are compared as parsed by the reference RFC 8259 parser (Ref/Rfc8259.lean); member names without escapes"],
         "level_text": "sources_sound (every source is a member of the inferred shape, any order/repetition) and one_more (adding a document never evicts) are Lean theorems over all histories, resting on merger_sound/merger_wf/infer_sound/infer_wf proved by induction over all shapes/documents. sources_sound is stated under conflictFree, the exact complement of recorded known finding D3 (pinned by the repo's own snapshot test); the negation on the D3 witness is proved too. merger, inference and from_sources of the model are compared with the real code on every run, and membership is re-checked on the real code's results with the independent `admits`.",
         "level_note": "Trusted: Lean kernel; hand-written model of shape/mod.rs (parse_rule on document trees), merger.rs, subset.rs tied by differential testing; reference semantics Ref/Sem.lean; the reference JSON parser stands in for the library's lexer/parser at this level (the text layer is C04's subject).",
@@ -198,7 +198,7 @@ PROPS = {
             "self_accepted": "s.wf → isSubset s s",
         },
         "partial": ["text level: superset_of_sample_text — for source texts with readings, from_sources(texts) = ok s implies is_superset(s, t) = true and is_superset_checked(s, t) = Ok(true) for every source text t"],
-        "rule": "histories of 1-5 type-directed random documents (as C01) through p_c03: from_sources(h), then for every i the three API calls from_str(d_i).is_subset(S), S.is_superset(d_i), S.is_superset_checked(d_i)==Ok(true), and S.is_subset(S); evaluated on the real code and on the model. Non-trivial = history of >= 2 documents with a container. Third session: plus n equal sources and one differing (n = 8..300) and documents as deep as the parser accepts.",
+        "rule": "histories of 1-5 type-directed random documents (as C01) through p_c03: from_sources(h), then for every i the three API calls from_str(d_i).is_subset(S), S.is_superset(d_i), S.is_superset_checked(d_i)==Ok(true), and S.is_subset(S); evaluated on the real code and on the model. Non-trivial = history of >= 2 documents with a container. Third session: plus n equal sources and one differing (n = 8..300) and documents as deep as the parser accepts. Also: position histories (pairs and triples), long histories with two different records, widening that feeds the second operand first. Every run also uses the source dictionary (string and integer literals of the library's non-test source as member names / values / texts / collection names and as sizes n-1, n, n+1) and repeats the whole operation list in reverse order in fresh processes, with env-var-like literals set, reporting answers that differ (hidden state).",
         "assumptions": [],
         "level_text": "samples_accepted is a Lean theorem over all histories of document trees: every single-document shape is reported as a subset of the merged shape. It rests on two lemmas proved for all shapes by induction over the 64 arms of merger (keeps, newSample), transitivity of is_subset into OneOf-free shapes, and invariants (wf, tupleFlat, plain) proved preserved. The proof only closes on the code repaired by the D6 fix; the pre-fix witnesses are kept as corpus entries. is_subset, merger and from_sources are compared with the real code on every run and the three API calls are re-evaluated on the real code.",
         "level_note": "Trusted: Lean kernel; models of subset.rs, merger.rs, shape/mod.rs tied by differential testing; text layer via the reference parser until C04.",
@@ -219,7 +219,7 @@ PROPS = {
         },
         "partial": ["the theorem's specification of JSON is the declarative two-level grammar (JsonTextVia); the executable reference parser used by the run-time oracle (Rfc.parse, recursive descent over characters) is a second, independent rendering of RFC 8259 — the two are proved to accept the same texts with the same documents (parse_sound, parse_complete, parse_iff_jsonText), so the oracle's verdict on a text is the specification's",
                     "logos' matching discipline and the lelwel-generated parser are modelled from their sources/behaviour; the model is compared with the real lexer tokens, CST and results on every text of the run"],
-        "rule": "from_str (and is_superset_checked / is_superset / from_sources on a subset) on: every string of length <= 3 (thorough 4) over a 29-character JSON alphabet, every token string of length <= 5 (thorough 6) over 13 lexemes, valid documents in four formattings with every prefix, deletion, substitution and insertion, escapes incl. surrogate pairs, nesting 200..300 around the limit, asymmetric bracket mixes, many-sibling documents (up to 700 arrays/objects). Oracle: accepted iff the independent RFC 8259 parser (Ref/Rfc8259.lean) accepts, depth <= 256 and no conflicting duplicate member names. Non-trivial = text with a container or an error.",
+        "rule": "from_str (and is_superset_checked / is_superset / from_sources on a subset) on: every string of length <= 3 (thorough 4) over a 29-character JSON alphabet, every token string of length <= 5 (thorough 6) over 13 lexemes, valid documents in four formattings with every prefix, deletion, substitution and insertion, escapes incl. surrogate pairs, nesting 200..300 around the limit, asymmetric bracket mixes, many-sibling documents (up to 700 arrays/objects). Oracle: accepted iff the independent RFC 8259 parser (Ref/Rfc8259.lean) accepts, depth <= 256 and no conflicting duplicate member names. Non-trivial = text with a container or an error. Also: a member name repeated in one object in nine spelling pairs × seven value pairs × four layouts, twelve characters that are neither JSON whitespace nor part of a lexeme before / after / between the tokens of eleven small documents, twin sources (a valid source directly followed by a near twin: padded with ten non-JSON blanks, other case, cut short, doubled). Every run also uses the source dictionary (string and integer literals of the library's non-test source as member names / values / texts / collection names and as sizes n-1, n, n+1) and repeats the whole operation list in reverse order in fresh processes, with env-var-like literals set, reporting answers that differ (hidden state).",
         "assumptions": ["logos' matching discipline (longest match, keyword priority, one-character error tokens) is modelled from observation"],
         "level_text": "accept_iff is a Lean theorem over all strings: from_str returns a shape exactly for the texts that are JSON per RFC 8259 (valid lexemes per the RFC's number and string rules, token sequence derivable in the RFC's grammar), keep at most 256 brackets open, and whose document has no member name repeated with conflicting value shapes; and the shape is inferDoc of that (unique) document. Both directions are proved about the full model of the text layer — the logos token set with check_string's escape state machine, the lelwel recovering LL(1) parser with error recovery and open/close bookkeeping, parse_cst, reject_diagnostics — through lexer soundness/completeness (maximal munch against the follow sets of the grammar), parser soundness/completeness in states where nothing has been reported, unambiguity of the grammar, and evaluation of parse_cst on the built tree. The model is compared with the real code on ~600k texts per run including tokens, CST and exact error ranges.",
         "level_note": "Trusted: Lean kernel; models of lexer.rs / generated.rs / shape/mod.rs / lib.rs (differential testing, exhaustive at small scope); Ref/JsonText.lean + Ref/TokenGrammar.lean + Rfc.number/Rfc.stringBody are the specification of the JSON language for the theorem, Ref/Rfc8259.lean's parser for the oracle.",
@@ -240,7 +240,7 @@ PROPS = {
         },
         "partial": ["'no unbounded loop' is a theorem for the lexer loop and the recovering parser (text_layer_terminates: linear step bounds for every string); the remaining functions of the model are structurally recursive on the tree / document / shape. 'no stack overflow' is a theorem in the form the model can carry: the depth of the parse tree — the number of nested frames of the generated parser and of parse_cst — is at most 516 for every string (tree_depth_bounded); that 516 frames fit the stack is the remaining assumption. Bytes of stack and wall-clock are not expressible in the model: the real code is run on 100000-bracket and multi-hundred-kilobyte inputs and on nesting in every position (16 one-hole contexts x 5 cores, depth 30-120, both paths) under a per-operation time limit in a restartable child process",
                     "work bounds are call counts (work_bounds, shared with C12)"],
-        "rule": "as C04's corpus plus hostile sizes: 1000 and 100000 unbalanced/balanced brackets, 100000 nested `{\"a\":`, 300 KB (thorough 4 MB) strings with multi-byte characters, wide arrays, many siblings, unterminated escapes; serde_json values nested to serde_json's limit through the value path. Oracle: no panic, no crash, no timeout; every InvalidJson range lies inside the input on character boundaries and the fragment equals the input at that range (checked byte-wise in Python). Correspondence is one-sided for C05 (code panics/hangs ⇒ model panics): differences in the answer itself are C04's subject. Non-trivial = error answer or container.",
+        "rule": "as C04's corpus plus hostile sizes: 1000 and 100000 unbalanced/balanced brackets, 100000 nested `{\"a\":`, 300 KB (thorough 4 MB) strings with multi-byte characters, wide arrays, many siblings, unterminated escapes; serde_json values nested to serde_json's limit through the value path. Oracle: no panic, no crash, no timeout; every InvalidJson range lies inside the input on character boundaries and the fragment equals the input at that range (checked byte-wise in Python). Correspondence is one-sided for C05 (code panics/hangs ⇒ model panics): differences in the answer itself are C04's subject. Non-trivial = error answer or container. Also: the special-character and twin-source families of C04. Every run also uses the source dictionary (string and integer literals of the library's non-test source as member names / values / texts / collection names and as sizes n-1, n, n+1) and repeats the whole operation list in reverse order in fresh processes, with env-var-like literals set, reporting answers that differ (hidden state).",
         "assumptions": ["one frame of rule_* / parse_rule per tree level and 516 such frames fit the stack (validated by the runs on 100000-bracket inputs and on depth-256 documents)", "the value path recurses once per level of the serde_json value, whose depth serde_json bounds by 128"],
         "level_text": "fromStr_total and span_faithful are Lean theorems over all strings: the model of the whole text path (logos-style lexer with check_string, lelwel's recovering parser, parse_cst with all its slices of the source as explicit panic outcomes, reject_diagnostics) never reaches a panic outcome, and every InvalidJson carries exactly the input text at a range on character boundaries. Proved through three invariants: tokens tile the text on character boundaries (tokenize_ok), the parse tree's leaves are the tokens in order (parse_leaves), every diagnostic of lexer and parser is an ordered pair of boundaries. The model is compared with the real code on every generated text including panic/crash/timeout outcomes; stack depth and time are observed on adversarial sizes, not proved.",
         "level_note": "Trusted: Lean kernel; text-layer model tied by differential testing (lexer tokens, CST, results incl. error ranges); real stack/time behaviour is observed, not proved.",
@@ -254,7 +254,7 @@ PROPS = {
             "infer_member_order": "ms.Perm ms' → inferDoc (obj ms) = ok s → inferDoc (obj ms') = ok s (also with repeated member names of equal value shapes)",
         },
         "partial": ["render_independent / same_document_same_result lift rerender_same_shape to strings through accept_iff (C04): two JSON texts within the depth bound whose documents are equal (they differ in insignificant whitespace, in the lexical form of numbers and strings, in escapes of member names denoting the same name) or Rerender-related (member order, number of copies, payloads) get the same result from from_str"],
-        "rule": "for random documents d: three re-renderings r(d) each (other scalars of the same kind, other number/string lexical forms incl. escapes, reversed/swapped members, a same-shaped element appended to homogeneous arrays, four whitespace styles incl. CRLF and lone CR); from_str(d) == from_str(r(d)) on the real code and on the model. Non-trivial = container. Third session: member names are respelled too (each character literal, \\uXXXX in either hex case, surrogate pair, short escape); astral names in the key pool; repetition counts up to 1000.",
+        "rule": "for random documents d: three re-renderings r(d) each (other scalars of the same kind, other number/string lexical forms incl. escapes, reversed/swapped members, a same-shaped element appended to homogeneous arrays, four whitespace styles incl. CRLF and lone CR); from_str(d) == from_str(r(d)) on the real code and on the model. Non-trivial = container. Third session: member names are respelled too (each character literal, \\uXXXX in either hex case, surrogate pair, short escape); astral names in the key pool; repetition counts up to 1000. Also: raw DEL / NEL / C1 / NBSP+LS strings in the string pool; a first row and a differently shaped row repeated n times (n from the dictionary, incl. thresholds written as shifts). Every run also uses the source dictionary (string and integer literals of the library's non-test source as member names / values / texts / collection names and as sizes n-1, n, n+1) and repeats the whole operation list in reverse order in fresh processes, with env-var-like literals set, reporting answers that differ (hidden state).",
         "assumptions": [],
         "level_text": "render_independent is a Lean theorem over all pairs of JSON texts (strings) within the depth bound, and rerender_same_shape over all document trees: the inferred shape (and rejection) is invariant under every rewrite the property lists — scalar payloads, member order, number of copies — applied anywhere in the document, in any combination; the text layer is modelled and compared with the code, and the metamorphic equalities are evaluated on the real from_str.",
         "level_note": "Trusted: Lean kernel; models (differential testing).",
@@ -268,7 +268,7 @@ PROPS = {
             "paths_agree": "∀ d, d.noDupKeys → inferDoc d = ok s → inferSVal d.toSVal = s",
             "classify_agree": "on inferred element shapes the two array classifications (branches tested in different orders) coincide",
         },
-        "rule": "type-directed random documents (nesting <= 4; arrays of objects where later elements lack early/middle/late keys; empty arrays/objects) in up to four formattings; each text goes through from_str and through serde_json::from_str + JsonShape::from (+ JsonVisitor, owned From). Oracle: the two results are equal. Non-trivial = container involved. Third session: plus exhaustive small-scope documents, disagreeing / near-equal element families and the WIDTH families (n = 7..300), member names respelled with every kind of escape.",
+        "rule": "type-directed random documents (nesting <= 4; arrays of objects where later elements lack early/middle/late keys; empty arrays/objects) in up to four formattings; each text goes through from_str and through serde_json::from_str + JsonShape::from (+ JsonVisitor, owned From). Oracle: the two results are equal. Non-trivial = container involved. Third session: plus exhaustive small-scope documents, disagreeing / near-equal element families and the WIDTH families (n = 7..300), member names respelled with every kind of escape. Also: one name spelled differently in sibling elements; a text the value path accepts and the text path refuses is a failure unless the model refuses it too. Every run also uses the source dictionary (string and integer literals of the library's non-test source as member names / values / texts / collection names and as sizes n-1, n, n+1) and repeats the whole operation list in reverse order in fresh processes, with env-var-like literals set, reporting answers that differ (hidden state).",
         "assumptions": ["serde_json parses an accepted text to the value Doc.toSVal describes (members sorted by key); exercised on every case, not proved",
                         "member names without escape sequences (escaped names: see DESIGN D11)"],
         "level_text": "paths_agree is a Lean theorem over all document trees without repeated member names: the model of parse_rule and the model of From<&serde_json::Value> return the same shape; it rests on the exact characterisation of both array classifications (classify_agree) and map extensionality. Both models are compared with the real functions on every run and the equality is re-checked on the real code's outputs.",
@@ -289,7 +289,7 @@ PROPS = {
             "sources_idem": "inferDoc d = ok s → fromSourcesDoc [d,d] = ok s",
             "sources_null": "fromSourcesDoc [d,null] = fromSourcesDoc [null,d] = ok (asOptional s)",
         },
-        "rule": "merger on all ordered pairs of the small-scope shape universe + related random pairs; p_c08 on all ordered pairs of 11 fixed documents (scalars, [], {}, [[],1], [1,2], [1,\"a\"], [null,1], {a:1}) and random document pairs: idempotence, null absorption, object/array structure checked on the real code, both merge orders compared by witnesses of the reference semantics. Non-trivial = container involved. Third session: plus the depth-2 universe as ordered pairs for merger.",
+        "rule": "merger on all ordered pairs of the small-scope shape universe + related random pairs; p_c08 on all ordered pairs of 11 fixed documents (scalars, [], {}, [[],1], [1,2], [1,\"a\"], [null,1], {a:1}) and random document pairs: idempotence, null absorption, object/array structure checked on the real code, both merge orders compared by witnesses of the reference semantics. Non-trivial = container involved. Third session: plus the depth-2 universe as ordered pairs for merger. Also: both merge orders for every ordered pair of twenty small documents in six contexts; space twins in both orders. Every run also uses the source dictionary (string and integer literals of the library's non-test source as member names / values / texts / collection names and as sizes n-1, n, n+1) and repeats the whole operation list in reverse order in fresh processes, with env-var-like literals set, reporting answers that differ (hidden state).",
         "assumptions": [],
         "level_text": "All algebraic laws are Lean theorems over every well-formed shape: idempotence, both null laws, order-insensitivity as equality of meanings (∀ documents), and the object/array/scalar structure equations, with corollaries at the level of sources. merger is compared with the real function on every run; the laws are re-evaluated on the real from_sources for generated document pairs.",
         "level_note": "Trusted: Lean kernel; hand-written model of merger.rs (differential testing, exhaustive over constructor pairs and flags at small scope); reference semantics for the meaning comparison.",
@@ -313,7 +313,7 @@ PROPS = {
         },
         "partial": ["the work measure proved is the number of calls of the four recursive functions (tied exactly to the code by hook counters); that heap allocations / time follow the call counts polynomially is measured on growth families (log-log slope <= 2.3), not proved",
                     "the tick twin of is_subset mirrors the evaluation order of the code; subsetT_is_isSubset proves its Boolean is isSubset's, and both its Boolean and its count are compared with the real code on every case"],
-        "rule": "ticks_subset / ticks_merger on all ordered pairs of the small-scope universe, related random pairs and reachable (sample, accumulator) pairs; ticks_infer / ticks_inferv on random documents and on the D10 family [[..[1,1]..,1],1] to depth 24; allocation counts of from_str, From<&Value>, from_sources, is_subset on depth 1..20, object-nesting 1..10, width 10..1000 (thorough 10^4), 10..1000 sources with a log-log slope test. Non-trivial = container involved. Third session: plus mixed chains (every kind against every kind, either side wrapped in a OneOf per level, fitting / non-fitting leaves, depth 4-20), the depth-2 universe as ordered pairs, and allocation families per arm and width (two wide objects with disjoint / equal / half-shared names, n one-member sources, a OneOf of n variants, wide tuples; n = 10..640).",
+        "rule": "ticks_subset / ticks_merger on all ordered pairs of the small-scope universe, related random pairs and reachable (sample, accumulator) pairs; ticks_infer / ticks_inferv on random documents and on the D10 family [[..[1,1]..,1],1] to depth 24; allocation counts of from_str, From<&Value>, from_sources, is_subset on depth 1..20, object-nesting 1..10, width 10..1000 (thorough 10^4), 10..1000 sources with a log-log slope test. Non-trivial = container involved. Third session: plus mixed chains (every kind against every kind, either side wrapped in a OneOf per level, fitting / non-fitting leaves, depth 4-20), the depth-2 universe as ordered pairs, and allocation families per arm and width (two wide objects with disjoint / equal / half-shared names, n one-member sources, a OneOf of n variants, wide tuples; n = 10..640). Also: nested repeated member names (accepted and rejected variants, depth 1-16) in the conversion counts; chain words as ordered pairs in the call counts. Every run also uses the source dictionary (string and integer literals of the library's non-test source as member names / values / texts / collection names and as sizes n-1, n, n+1) and repeats the whole operation list in reverse order in fresh processes, with env-var-like literals set, reporting answers that differ (hidden state).",
         "assumptions": ["allocations and wall time are bounded by a polynomial of the call counts (validated by the measured families)"],
         "level_text": "For the deterministic call-count measure the bounds are Lean theorems over all inputs: the value path converts each node exactly once (so a nesting level adds work proportional to that level — the exponential D10 behaviour is gone), the text path enters parse_rule at most once per node, merging k sources costs at most the total size of the sources in merger calls, and a subset query makes at most size(a)*size(b) calls. The model's counts are compared with hook counters in the real code for every generated case; allocation counts on the property's growth families are measured on the real code and must fit a low-degree polynomial.",
         "level_note": "Trusted: Lean kernel; tick twins written by hand and tied to the hooks by exact comparison; the link from call counts to allocations/time is empirical.",
@@ -328,7 +328,7 @@ PROPS = {
             "infer_array": "with es the element shapes: [] ↦ Option<Array<Null>>; all equal ↦ Array<es.head>; differently shaped non-objects ↦ Tuple es; differently shaped objects ↦ Array<Object M> with M[k] = specLookup k es (shape if in every element, optional form if in some)",
             "infer_object": "inferDoc (obj ms) = ok s → s = Object c false with keys exactly the member names, c[k] = inferDoc of the member's value",
         },
-        "rule": "random documents and each of their sub-documents through from_str and the serde_json path; p_c17 recomputes every node's shape from the shapes the implementation gives to its children by an independent Rust reading of the statement (keys with two value shapes are left unspecified, as in the statement). Non-trivial = container involved. Third session: plus exhaustive small-scope documents, disagreeing / near-equal element families and the WIDTH families (n = 7..300).",
+        "rule": "random documents and each of their sub-documents through from_str and the serde_json path; p_c17 recomputes every node's shape from the shapes the implementation gives to its children by an independent Rust reading of the statement (keys with two value shapes are left unspecified, as in the statement). Non-trivial = container involved. Third session: plus exhaustive small-scope documents, disagreeing / near-equal element families and the WIDTH families (n = 7..300). Also: one name spelled differently in sibling elements (with the independent recomputation p_c17). Every run also uses the source dictionary (string and integer literals of the library's non-test source as member names / values / texts / collection names and as sizes n-1, n, n+1) and repeats the whole operation list in reverse order in fresh processes, with env-var-like literals set, reporting answers that differ (hidden state).",
         "assumptions": ["value-path statements follow from C06 (paths_agree) composed with these theorems"],
         "level_text": "Every clause is a Lean theorem about the model of parse_rule over all document trees: scalars, objects (exact key set and value shapes), arrays (all four branches, with the array-of-objects content characterised key by key by specLookup). The model is compared with the real from_str and From<&Value> on each document and sub-document, and the clauses are recomputed on the real code independently.",
         "level_note": "Trusted: Lean kernel; hand-written model of shape/mod.rs and serde.rs (differential testing); the document tree is obtained by the reference parser (the lexer/parser layer is C04's subject).",
@@ -347,7 +347,7 @@ PROPS = {
             "isOneOfT_*": "the generic model of IsOneOf<T> (all 15 type arguments) is, instance by instance, the helper that is_subset calls and subset_sound reasons about",
         },
         "partial": ["text level: superset_sound_text — is_superset(s, t) = true or is_superset_checked(s, t) = Ok(true) implies t is a JSON text within the depth bound whose document s admits (for conflict-free documents; D3 is the complement)"],
-        "rule": "subset on all ordered pairs of the small-scope universe + random related pairs (widenings, merges, mutations); for every pair the code answers true, witness documents drawn from meaning(a) are checked against admits(b); (shape,text) pairs from inferred histories for is_superset / is_superset_checked, each true answer checked with admits; the 58 typed queries of value/subtypes.rs (IsArrayOf / IsOneOf / IsObjectOf / IsTupleOf for every type argument that has an impl, reached through a feature-guarded hook because the module is private) and the public is_tuple_of(&[..]) on every shape of the small-scope universe, present and absent keys, inside and outside positions: compared with the model exactly. Non-trivial = answer true with a container on either side. Third session: plus the depth-2 universe as ordered pairs, every kind of shape against one to three OneOf layers × layer flag × Null beside it, wide objects/tuples/OneOfs (5-65 entries) against a twin differing in the last entry, and every small hand-built shape (incl. tuples of 1-4 equal slots, nested and in unions) × 24 short texts through is_superset and is_superset_checked.",
+        "rule": "subset on all ordered pairs of the small-scope universe + random related pairs (widenings, merges, mutations); for every pair the code answers true, witness documents drawn from meaning(a) are checked against admits(b); (shape,text) pairs from inferred histories for is_superset / is_superset_checked, each true answer checked with admits; the 58 typed queries of value/subtypes.rs (IsArrayOf / IsOneOf / IsObjectOf / IsTupleOf for every type argument that has an impl, reached through a feature-guarded hook because the module is private) and the public is_tuple_of(&[..]) on every shape of the small-scope universe, present and absent keys, inside and outside positions: compared with the model exactly. Non-trivial = answer true with a container on either side. Third session: plus the depth-2 universe as ordered pairs, every kind of shape against one to three OneOf layers × layer flag × Null beside it, wide objects/tuples/OneOfs (5-65 entries) against a twin differing in the last entry, and every small hand-built shape (incl. tuples of 1-4 equal slots, nested and in unions) × 24 short texts through is_superset and is_superset_checked. Also: chain words (2 457 three-level chains of one-slot containers of every kind and flag, as ordered pairs: 1 in 32 quick, 1 in 4 thorough), a member name repeated in one object (alike or respelled) through both text queries. Every run also uses the source dictionary (string and integer literals of the library's non-test source as member names / values / texts / collection names and as sizes n-1, n, n+1) and repeats the whole operation list in reverse order in fresh processes, with env-var-like literals set, reporting answers that differ (hidden state).",
         "assumptions": [],
         "level_text": "subset_sound is a Lean theorem for every pair of shapes (any constructor, both flags, any nesting): isSubset a b = true implies every document admitted by a is admitted by b, with `admits` an independent reference semantics. The consequence for is_superset on texts is checked by an oracle on the real code (admits on every true answer) and has one recorded known finding (D3 class).",
         "level_note": "Trusted: Lean kernel; model of subset.rs/subtypes.rs tied by differential testing; reference semantics Ref/Sem.lean. Text-level clause (is_superset) is not yet a theorem: it depends on the parser model and on inference soundness, which fails on the D3 class (known finding).",
